@@ -1,10 +1,11 @@
+\* deviation demo, not part of any plan.  expected: Invariant KeepSetExact is violated (SA unselected -> SB -> SC: SC must be kept)
 SPECIFICATION Spec
-CONSTANT Deviations = {}
-CONSTANT Family = "subst"
+CONSTANT Deviations = {"KeepDirectOnly"}
+CONSTANT Family = "graph"
 CONSTANT W1 = 2
 CONSTANT W2 = 1
 CONSTANT W3 = 1
-CONSTANT FilterLevel = 1
+CONSTANT FilterLevel = 2
 CONSTANT BodyLevel = 1
 INVARIANT Refines
 INVARIANT ErrorsExact
@@ -17,5 +18,4 @@ INVARIANT GenStackDiscipline
 INVARIANT GenDepthBounded
 INVARIANT NotStuck
 INVARIANT FrameInvariant
-INVARIANT Emit
 CHECK_DEADLOCK FALSE
